@@ -30,7 +30,7 @@ typedef struct Topic_Slot Slot_t;
 #define LCLR Topic_clear_lambda_transient_topic_clear_1_op_call
 
 unsigned int *g_w;                 /* the focus slot's futex word */
-unsigned g_ce_calls, g_fa_calls, g_fe_calls, g_cb_calls;
+unsigned g_ce_calls, g_fa_calls, g_fe_calls, g_cb_calls, g_cl_calls; size_t g_vec_size;
 _Bool g_fmarked;                   /* publisher range: waiter mark of the focus slot as a ghost */
 unsigned g_fst;                    /* consumer scan: status of the focus slot as a ghost (the scan itself never touches slot memory) */
 _Bool g_env_on, g_ready_seen;
@@ -80,7 +80,7 @@ int Sched_futex_wait(uint32_t *f, unsigned int val, struct timespec *timeout) {
 }
 Slot_t *g_slots; size_t g_n, g_k;      /* a range of g_n slots, focus position g_k */
 static void vf_havoc_ghosts(void) {
-  g_env_on = nondet_bool(); g_ready_seen = 0; g_wakes = g_sleeps = g_status_stores = g_fences_after_store = g_loads_after_fence = 0; g_ce_calls = 0; g_fa_calls = 0; g_fe_calls = 0; g_cb_calls = 0;
+  g_env_on = nondet_bool(); g_ready_seen = 0; g_wakes = g_sleeps = g_status_stores = g_fences_after_store = g_loads_after_fence = 0; g_ce_calls = 0; g_cl_calls = 0; g_vec_size = nondet_u64(); g_fa_calls = 0; g_fe_calls = 0; g_cb_calls = 0;
   g_fst = nondet_u32(); g_fmarked = nondet_bool(); g_n = nondet_u64(); g_k = nondet_u64(); __CPROVER_assume(g_n < (1UL << 20));
   g_slots = malloc((g_n + 1) * sizeof(Slot_t)); __CPROVER_assume(g_slots != 0);
 }
@@ -93,8 +93,8 @@ __CPROVER_assigns(*g_w, g_sleeps)
 __CPROVER_ensures(ST(*g_w) != INITIAL)          /* stable: a set status is final */
 ;
 //@loop Topic_SlotFutex_wait_until_ready_slow 1
-//@  __CPROVER_assigns(current_status_and_waiters, status, *g_w, g_sleeps)
-//@  __CPROVER_loop_invariant(status == (unsigned short)current_status_and_waiters && (ST(current_status_and_waiters) == INITIAL || ST(*g_w) == ST(current_status_and_waiters)) && ST(*g_w) <= CLOSED)
+//@  __CPROVER_assigns(@p1:current_status_and_waiters@, @l1:status@, *g_w, g_sleeps)
+//@  __CPROVER_loop_invariant(@l1:status@ == (unsigned short)@p1:current_status_and_waiters@ && (ST(@p1:current_status_and_waiters@) == INITIAL || ST(*g_w) == ST(@p1:current_status_and_waiters@)) && ST(*g_w) <= CLOSED)
 //@end
 void Topic_SlotFutex_wait_until_ready(SF_t *s)
 #ifdef VF_ENFORCE_Topic_SlotFutex_wait_until_ready
@@ -172,16 +172,16 @@ __CPROVER_ensures(!(begin <= &g_slots[g_k] && &g_slots[g_k] < end) ==> (g_fst ==
 /* focus slot inside [lo, hi), by byte offsets within g_slots (no pointer relation on a loop-havoced pointer) */
 #define F_IN(lo, hi) ((size_t)__CPROVER_POINTER_OFFSET(lo) <= g_k * sizeof(Slot_t) && g_k * sizeof(Slot_t) < (size_t)__CPROVER_POINTER_OFFSET(hi))
 //@loop Topic_publish_n_lambda_transient_topic_publish_n_1_op_call 1
-//@  VF_REBASE(@l1@, g_slots)
-//@  __CPROVER_assigns(@l1@, g_fst, g_status_stores, g_fences_after_store, g_loads_after_fence)
-//@  __CPROVER_loop_invariant(__CPROVER_same_object(@l1@, g_slots) && (size_t)__CPROVER_POINTER_OFFSET(@l1@) <= g_n * sizeof(Slot_t) && (size_t)__CPROVER_POINTER_OFFSET(@l1@) % sizeof(Slot_t) == 0 && @p1@ <= @l1@ && @l1@ <= @p2@)
-//@  __CPROVER_loop_invariant(g_status_stores == (F_IN(@p1@, @l1@) ? 1u : 0u) && g_fst == (F_IN(@p1@, @l1@) ? PUBLISHED : INITIAL) && g_fences_after_store == 0 && g_loads_after_fence == 0)
+//@  VF_REBASE(@l1:iter@, g_slots)
+//@  __CPROVER_assigns(@l1:iter@, g_fst, g_status_stores, g_fences_after_store, g_loads_after_fence)
+//@  __CPROVER_loop_invariant(__CPROVER_same_object(@l1:iter@, g_slots) && (size_t)__CPROVER_POINTER_OFFSET(@l1:iter@) <= g_n * sizeof(Slot_t) && (size_t)__CPROVER_POINTER_OFFSET(@l1:iter@) % sizeof(Slot_t) == 0 && @p1:begin@ <= @l1:iter@ && @l1:iter@ <= @p2:end@)
+//@  __CPROVER_loop_invariant(g_status_stores == (F_IN(@p1:begin@, @l1:iter@) ? 1u : 0u) && g_fst == (F_IN(@p1:begin@, @l1:iter@) ? PUBLISHED : INITIAL) && g_fences_after_store == 0 && g_loads_after_fence == 0)
 //@end
 //@loop Topic_publish_n_lambda_transient_topic_publish_n_1_op_call 2
-//@  VF_REBASE(@l2@, g_slots)
-//@  __CPROVER_assigns(@l2@, g_wakes, g_loads_after_fence, g_fmarked)
-//@  __CPROVER_loop_invariant(__CPROVER_same_object(@l2@, g_slots) && (size_t)__CPROVER_POINTER_OFFSET(@l2@) <= g_n * sizeof(Slot_t) && (size_t)__CPROVER_POINTER_OFFSET(@l2@) % sizeof(Slot_t) == 0 && @p1@ <= @l2@ && @l2@ <= @p2@)
-//@  __CPROVER_loop_invariant(F_IN(@p1@, @l2@) ? (g_loads_after_fence == (g_fences_after_store ? 1u : 0u) && g_wakes == (__CPROVER_loop_entry(g_fmarked) ? 1u : 0u)) : (g_wakes == 0 && g_loads_after_fence == 0 && g_fmarked == __CPROVER_loop_entry(g_fmarked)))
+//@  VF_REBASE(@l2:iter_2@, g_slots)
+//@  __CPROVER_assigns(@l2:iter_2@, g_wakes, g_loads_after_fence, g_fmarked)
+//@  __CPROVER_loop_invariant(__CPROVER_same_object(@l2:iter_2@, g_slots) && (size_t)__CPROVER_POINTER_OFFSET(@l2:iter_2@) <= g_n * sizeof(Slot_t) && (size_t)__CPROVER_POINTER_OFFSET(@l2:iter_2@) % sizeof(Slot_t) == 0 && @p1:begin@ <= @l2:iter_2@ && @l2:iter_2@ <= @p2:end@)
+//@  __CPROVER_loop_invariant(F_IN(@p1:begin@, @l2:iter_2@) ? (g_loads_after_fence == (g_fences_after_store ? 1u : 0u) && g_wakes == (__CPROVER_loop_entry(g_fmarked) ? 1u : 0u)) : (g_wakes == 0 && g_loads_after_fence == 0 && g_fmarked == __CPROVER_loop_entry(g_fmarked)))
 //@end
 
 /* publish_n<true>: the range is exactly [old counter, old counter + num), taken by one atomic add */
@@ -235,11 +235,11 @@ __CPROVER_ensures((!*self->cap_closed) ==> *self->cap_consumed - __CPROVER_old(*
 __CPROVER_ensures((!__CPROVER_old(*self->cap_closed) && *self->cap_closed && iter + (*self->cap_consumed - __CPROVER_old(*self->cap_consumed)) == &g_slots[g_k]) ==> g_fst == CLOSED)
 ;
 //@loop Topic_Consumer_consume_lambda_transient_topic_consume_1_op_call 1
-//@  VF_REBASE(@p1@, g_slots)
-//@  __CPROVER_assigns(@p1@, *self->cap_closed, *self->cap_consumed, g_fst, g_sleeps)
-//@  __CPROVER_loop_invariant(__CPROVER_same_object(@p1@, g_slots) && (size_t)__CPROVER_POINTER_OFFSET(@p1@) <= g_n * sizeof(Slot_t) && (size_t)__CPROVER_POINTER_OFFSET(@p1@) % sizeof(Slot_t) == 0 && __CPROVER_loop_entry(@p1@) <= @p1@ && @p1@ <= @p2@)
-//@  __CPROVER_loop_invariant(!*self->cap_closed && *self->cap_consumed == __CPROVER_loop_entry(*self->cap_consumed) + (size_t)(@p1@ - __CPROVER_loop_entry(@p1@)) && g_fst <= CLOSED)
-//@  __CPROVER_loop_invariant((__CPROVER_loop_entry(@p1@) <= &g_slots[g_k] && &g_slots[g_k] < @p1@) ==> g_fst == PUBLISHED)
+//@  VF_REBASE(@p1:iter@, g_slots)
+//@  __CPROVER_assigns(@p1:iter@, *self->cap_closed, *self->cap_consumed, g_fst, g_sleeps)
+//@  __CPROVER_loop_invariant(__CPROVER_same_object(@p1:iter@, g_slots) && (size_t)__CPROVER_POINTER_OFFSET(@p1:iter@) <= g_n * sizeof(Slot_t) && (size_t)__CPROVER_POINTER_OFFSET(@p1:iter@) % sizeof(Slot_t) == 0 && __CPROVER_loop_entry(@p1:iter@) <= @p1:iter@ && @p1:iter@ <= @p2:end@)
+//@  __CPROVER_loop_invariant(!*self->cap_closed && *self->cap_consumed == __CPROVER_loop_entry(*self->cap_consumed) + (size_t)(@p1:iter@ - __CPROVER_loop_entry(@p1:iter@)) && g_fst <= CLOSED)
+//@  __CPROVER_loop_invariant((__CPROVER_loop_entry(@p1:iter@) <= &g_slots[g_k] && &g_slots[g_k] < @p1:iter@) ==> g_fst == PUBLISHED)
 //@end
 
 /* ---- Consumer::consume(num): scans exactly [cursor, cursor + num), advances the cursor by the number of items the scan counted, and
@@ -258,4 +258,39 @@ __CPROVER_assigns(c->_next_consume_index, g_ce_begin, g_ce_end, g_ce_count, g_ce
 __CPROVER_ensures(g_ce_calls == 1 && g_ce_begin == __CPROVER_old(c->_next_consume_index) && g_ce_end == g_ce_begin + num)
 __CPROVER_ensures(c->_next_consume_index == g_ce_begin + g_ce_count && __CPROVER_return_value._begin == g_ce_begin && __CPROVER_return_value._size == g_ce_count)
 ;
+
+/* ---- clear(): every slot the vector holds is reset to INITIAL (also the one that carries the CLOSED marker, which lies beyond the
+ * published range) and the event counter restarts at zero: after clear() the topic behaves like a new one */
+unsigned long g_cl_begin, g_cl_end;
+size_t SlotVec_size(struct SlotVec *v) { return g_vec_size; }
+void SlotVec_for_each__lambda_transient_topic_clear_1_void(struct SlotVec *v, unsigned long begin, unsigned long end, struct lambda_transient_topic_clear_1 *cb) { g_cl_begin = begin; g_cl_end = end; g_cl_calls++; }
+void Topic_clear(struct Topic *t)
+__CPROVER_requires(__CPROVER_is_fresh(t, sizeof(*t)) && g_cl_calls == 0)
+__CPROVER_assigns(t->_next_event_index, g_cl_begin, g_cl_end, g_cl_calls)
+__CPROVER_ensures(g_cl_calls == 1 && g_cl_begin == 0 && g_cl_end == g_vec_size && t->_next_event_index == 0)
+;
+void LCLR(struct lambda_transient_topic_clear_1 *self, Slot_t *iter, Slot_t *end)
+__CPROVER_requires(__CPROVER_is_fresh(self, sizeof(*self)) && __CPROVER_pointer_in_range_dfcc(g_slots, iter, g_slots + g_n) && __CPROVER_pointer_in_range_dfcc(iter, end, g_slots + g_n))
+__CPROVER_requires((size_t)__CPROVER_POINTER_OFFSET(iter) % sizeof(Slot_t) == 0 && (size_t)__CPROVER_POINTER_OFFSET(end) % sizeof(Slot_t) == 0 && g_k < g_n && g_fst <= CLOSED)
+__CPROVER_assigns(g_fst, g_fmarked)
+__CPROVER_ensures((iter <= &g_slots[g_k] && &g_slots[g_k] < end) ==> (g_fst == INITIAL && !g_fmarked))
+__CPROVER_ensures(!(iter <= &g_slots[g_k] && &g_slots[g_k] < end) ==> (g_fst == __CPROVER_old(g_fst) && g_fmarked == __CPROVER_old(g_fmarked)))
+;
+void Topic_SlotFutex_reset(SF_t *s)
+#ifdef VF_ENFORCE_Topic_clear_lambda_transient_topic_clear_1_op_call
+__CPROVER_requires(1)
+__CPROVER_assigns(g_fst, g_fmarked)
+__CPROVER_ensures(s == &g_slots[g_k].futex ? (g_fst == INITIAL && !g_fmarked) : (g_fst == __CPROVER_old(g_fst) && g_fmarked == __CPROVER_old(g_fmarked)))
+#else
+__CPROVER_requires(SF_SHAPE(s) && !g_env_on)
+__CPROVER_assigns(*g_w)
+__CPROVER_ensures(*g_w == INITIAL)
+#endif
+;
+//@loop Topic_clear_lambda_transient_topic_clear_1_op_call 1
+//@  VF_REBASE(@p1:iter@, g_slots)
+//@  __CPROVER_assigns(@p1:iter@, g_fst, g_fmarked)
+//@  __CPROVER_loop_invariant(__CPROVER_same_object(@p1:iter@, g_slots) && (size_t)__CPROVER_POINTER_OFFSET(@p1:iter@) <= g_n * sizeof(Slot_t) && (size_t)__CPROVER_POINTER_OFFSET(@p1:iter@) % sizeof(Slot_t) == 0 && __CPROVER_loop_entry(@p1:iter@) <= @p1:iter@ && @p1:iter@ <= @p2:end@)
+//@  __CPROVER_loop_invariant(F_IN(__CPROVER_loop_entry(@p1:iter@), @p1:iter@) ? (g_fst == INITIAL && !g_fmarked) : (g_fst == __CPROVER_loop_entry(g_fst) && g_fmarked == __CPROVER_loop_entry(g_fmarked)))
+//@end
 #endif
